@@ -9,6 +9,15 @@ from-scratch run agree (acyclic_unique, fresh_run_agrees).
 Tie: (i) the machine's enabledness condition is audited on the real engine for every evaluation of
 every bundle: a completed evaluation must not have read a dirty cell (wrappers on _use_node /
 _recompute_one_cell); (ii) C18's check validates the engine's finishing order against the machine.
+     (iii) lookup.py's `_LookupRelation` bookkeeping (which referring rows are handed to invalidate_records when
+keys of a lookup index change; the `_invalidated_keys_cache`) is below the Recalc model.  It has its own model
+GristModel/LookupRel.lean with safety theorems in GristProps/C05.lean; every relation of every history is recorded
+at run time (gx/lookuprel_harness.py), replayed in the model through the driver and compared per operation (rows
+handed over, get_affected_rows_by_keys, final map and cache); the theorems' explicit hypothesis about the engine
+(`engineSettled`: a row handed over or reset is evaluated from the start before the engine treats it as up to date)
+is evaluated on every trace at every end of a bundle.  It is expected to fail only for the `#summary#` helper
+columns (their formula `lookupOrAddDerived` adds the record it looks up while the column is being computed; the
+property excludes such formulas); those are counted separately.
 Search (the property itself): after every successful bundle a fresh Engine is loaded with the
 metadata and the data columns only, `Calculate` is applied, and every table is compared.
 Excluded as the property says: volatile / side-effecting user formulas and trigger-formula data
@@ -17,6 +26,8 @@ columns (the generator emits neither).
 from gx.props import _hist
 
 PROP = "C05"
+_LK_COUNT = [0]
+LK_PROP = "C05/lookuprel"      # pseudo-property under which lookuprel correspondence problems travel in h.findings
 PROFILE = {"add_formula_column": 10, "modify_formula": 6, "summary": 4, "update_summary": 1.5, "add_ref_column": 4,
            "reverse_column": 1, "update_record": 18, "bulk_update": 8, "remove_record": 8, "bulk_remove": 4,
            "replace_data": 2, "rename_column": 4, "modify_type": 4, "to_formula": 2, "to_data": 1,
@@ -110,7 +121,13 @@ def setup_missing_id(h):
 def install(h, cfg):
   from gx import engine_driver as ed
   from gx import recalc_harness as rh
+  from gx import lookuprel_harness as lh
   rh.install()
+  # the _LookupRelation recorder: every history in the quick tier, every `lookuprel_every`-th one of a worker otherwise
+  _LK_COUNT[0] += 1
+  h._lkrel = None
+  if (_LK_COUNT[0] - 1) % max(1, cfg.get("lookuprel_every", 1)) == 0:
+    h._lkrel = lh.Recorder(h.doc.engine).start()
   if cfg.get("chain"):
     h.setup = setup_chain
   elif h.rng.random() < 0.35:
@@ -120,6 +137,8 @@ def install(h, cfg):
   def raw(uas):
     with rh.Recording(reads=True) as rec:
       res = orig_raw(uas)
+    if h._lkrel is not None:
+      h._lkrel.settle()
     bad = rh.dirty_read_violations(rec.reads)
     if bad:
       h._find(PROP, "an evaluation completed although it read a dirty cell", repr(bad[:2]),
@@ -127,6 +146,33 @@ def install(h, cfg):
     return res
   h._raw = raw
   h.extra_oracles.append(fresh_oracle)
+  orig_end = h.end
+
+  def end():
+    orig_end()
+    lookuprel_finish(h)
+  h.end = end
+
+
+def lookuprel_finish(h):
+  """End of a history: replay every recorded `_LookupRelation` trace in Grist.LookupRel and compare."""
+  from gx import lookuprel_harness as lh
+  rec = h._lkrel
+  if rec is None:
+    return []
+  rec.stop()
+  h.stats["lkrel_histories"] = h.stats.get("lkrel_histories", 0) + 1
+  cnt, problems = lh.compare(rec, lh.run_driver)
+  for k, v in cnt.items():
+    h.stats["lkrel_" + k] = h.stats.get("lkrel_" + k, 0) + v
+  explained = any(f[0] == PROP for f in h.findings)
+  out = []
+  for (kind, detail, obj) in problems:
+    f = (LK_PROP, kind, detail, {"history": h.replay_obj()["history"], "lookuprel": obj,
+                                 "explained_by_direct_finding": explained})
+    h.findings.append(f)
+    out.append(f)
+  return out
 
 
 STALE_LOOKUP_SIG = ("formula with a lookup keyed on a column that no longer exists keeps its old result "
@@ -200,11 +246,22 @@ def run(ck):
              "type changes, renames, undo); after EVERY successful bundle a fresh engine is loaded from the data columns "
              "and compared; non-trivial = bundle in which at least two calc deltas were produced; distinct by user actions")
   ck.assumptions = ["generator emits deterministic formulas only; no NOW/TODAY/random/REQUEST/PEEK; no trigger-formula columns",
-                    "read audit covers reads of specific rows (lookup-map reads are whole-node reads and are covered by the fresh-engine comparison only)"]
+                    "read audit covers reads of specific rows (lookup-map reads are whole-node reads and are covered by the fresh-engine comparison only)",
+                    "Grist.LookupRel: keys are tokens numbered per relation by Python equality/hash; the set/set TwoWayMap is modelled as "
+                    "one relation (C13 proves its two dicts consistent; both are compared with the model)",
+                    "Grist.LookupRel explicit hypothesis engineSettled (theorem lookuprel_settled_rows_handed): a referring row handed to "
+                    "invalidate_records or passed to reset_rows is evaluated from the start before the engine treats it as up to date; "
+                    "evaluated on every recorded trace at every end of a bundle; it fails, as expected, only for #summary# helper columns "
+                    "(lookupOrAddDerived changes the index it reads during the evaluation; counted separately in "
+                    "lookuprel_correspondence.hypothesis_violations_side_effecting_column)",
+                    "which row is 'current' when _add_lookup is called (engine._current_row_id) and the order in which the engine "
+                    "issues the operations are observed, not modelled"]
   ck.lean(["GristProps.C05"])
-  merged = _hist.run_histories(ck, CFG, n_quick=16, n_thorough=1200)
+  synthetic_lookuprel(ck)
+  every = 1 if ck.tier == "quick" else 3
+  merged = _hist.run_histories(ck, dict(CFG, lookuprel_every=every), n_quick=16, n_thorough=1200)
   # the lookup-chain family: short histories that are nearly all chain edits
-  m2 = _hist.run_histories(ck, CFG_CHAIN, n_quick=64, n_thorough=2500)
+  m2 = _hist.run_histories(ck, dict(CFG_CHAIN, lookuprel_every=every), n_quick=64, n_thorough=2500)
   for key in ("findings", "tie", "samples", "infra"):
     merged[key] += m2[key]
   merged["nontrivial"].update(m2["nontrivial"])
@@ -216,6 +273,67 @@ def run(ck):
   ck.extra["fresh_engine_comparisons"] = merged["stats"].get("fresh_compares", 0)
   ck.extra["lookup_chain_histories"] = m2["histories"]
   _hist.report(ck, merged, PROP, ())
+  report_lookuprel(ck, merged)
+
+
+def synthetic_lookuprel(ck, only=None):
+  """The witnesses of GristProps/C05.lean part (L) and seeded random operation sequences, applied to a bare
+  `_LookupRelation` of the current tree and to the model."""
+  from gx import common
+  common.setup_repo_path()
+  from gx import lookuprel_harness as lh
+  if only is not None:
+    seqs = [only]
+  else:
+    n = 400 if ck.tier == "quick" else 6000
+    seqs = [list(w) for w in lh.WITNESSES] + [lh.random_ops(ck.rng, ck.rng.randint(3, 30)) for _ in range(n)]
+  real = [lh.run_on_real_class(ops) for ops in seqs]
+  answers = ck.driver([{"m": "lookuprel", "op": "trace", "ops": ops} for ops in seqs])
+  first, bad, handing, suppressed = None, 0, 0, 0
+  for ops, (results, fin), ans in zip(seqs, real, answers):
+    if "error" in ans:
+      raise common.Infra("lookuprel driver: %s" % ans["error"])
+    ck.evaluated()
+    hs = [r for o, r in zip(ops, results) if o[0] == "inv" and r]
+    handing += len(hs)
+    if ans["variant_differs"]:
+      suppressed += 1
+      ck.nontrivial_case(["lookuprel", ops])
+    m = lh.synthetic_mismatch(ops, results, fin, ans)
+    if m:
+      bad += 1
+      if first is None:
+        first = (m, ops, results, fin, ans)
+  ck.cov["counters"].update({"lookuprel_synthetic_sequences": len(seqs), "lookuprel_synthetic_disagreements": bad,
+                             "lookuprel_synthetic_invalidations_handing_rows": handing,
+                             "lookuprel_synthetic_sequences_where_variant_differs": suppressed})
+  if first is not None:
+    ck._lookuprel_synthetic = first
+  return first
+
+
+def report_lookuprel(ck, merged):
+  lk = {k[6:]: v for k, v in merged["stats"].items() if k.startswith("lkrel_")}
+  ck.extra["lookuprel_correspondence"] = lk
+  probs = [f for f in merged["findings"] if f[0] == LK_PROP]
+  unexplained = [f for f in probs if not f[3].get("explained_by_direct_finding")]
+  ck.cov["counters"].update({
+    "lookuprel_relations_traced": lk.get("relations", 0), "lookuprel_ops_replayed": lk.get("ops", 0),
+    "lookuprel_invalidate_ops_compared": lk.get("inv_compared", 0),
+    "lookuprel_traces_violating_hypothesis": lk.get("hypothesis_violations", 0),
+    "lookuprel_model_impl_problems": len(probs),
+    "lookuprel_problems_in_histories_with_a_reported_violation": len(probs) - len(unexplained)})
+  syn = getattr(ck, "_lookuprel_synthetic", None)
+  if syn is not None and not ck.has_impl_violation():
+    (m, ops, results, fin, ans) = syn
+    ck.broken("correspondence lookup.py _LookupRelation vs Grist.LookupRel",
+              "operation sequence on a bare _LookupRelation: %s" % m,
+              {"lookuprel_ops": ops, "code_results": results, "code_final": fin, "model": ans})
+  if unexplained and not ck.has_impl_violation():
+    (_, kind, detail, replay, seed) = unexplained[0]
+    what = ("hypothesis engineSettled of Grist.LookupRel on a recorded trace" if kind.startswith("hypothesis")
+            else "correspondence lookup.py _LookupRelation vs Grist.LookupRel")
+    ck.broken(what, "%d problem(s); first: %s -- %s" % (len(unexplained), kind, detail[:500]), dict(replay, seed=seed))
 
 
 def replay(ck, rp):
@@ -225,16 +343,28 @@ def replay(ck, rp):
   common.setup_repo_path()
   from gx.hist_run import HistoryRun
   r = rp["replay"]
+  if "lookuprel_ops" in r:
+    first = synthetic_lookuprel(ck, only=r["lookuprel_ops"])
+    print("replay (operation sequence on a bare _LookupRelation):", first[0] if first else "code and model agree")
+    if first:
+      ck.broken("correspondence lookup.py _LookupRelation vs Grist.LookupRel", first[0], r)
+    ck.nontrivial_case("replay"); ck.nontrivial_case("replay2")
+    return
   hist, idx = r["history"], r.get("bundle_index", len(r["history"]) - 1)
   h = HistoryRun(random.Random(0), n_bundles=0, oracles=())
   install(h, CFG)
   for b in hist[:idx]:
     h._raw(b)
   h.apply(hist[idx], ["replay"])
+  lk = lookuprel_finish(h)
   for f in h.findings:
     print("replay finding:", f[0], f[1], f[2][:300])
     if f[0] == PROP:
       ck.violation(f[1], f[2], {"history": hist, "bundle_index": idx})
+  if lk and not ck.has_impl_violation():
+    ck.broken("correspondence lookup.py _LookupRelation vs Grist.LookupRel" if not lk[0][1].startswith("hypothesis")
+              else "hypothesis engineSettled of Grist.LookupRel on a recorded trace",
+              "%s -- %s" % (lk[0][1], lk[0][2][:500]), lk[0][3])
   if not h.findings:
     print("replay: property holds on this history")
   ck.evaluated(); ck.nontrivial_case("replay"); ck.nontrivial_case("replay2")
